@@ -1875,9 +1875,18 @@ class Module(ABC):
         )
 
         # Clamp for channels and synapses.
+        _, edge_states = self._get_state_names()
         for key in externals.keys():
             if key not in ["i", "v"]:
-                u[key] = u[key].at[external_inds[key]].set(externals[key])
+                inds = external_inds[key]
+                if key in edge_states:
+                    # Clamps of synaptic states are indexed by the global edge index,
+                    # but the states of every synapse type are stored in their own
+                    # array: convert to the index of the edge within its type.
+                    rank_in_type = self.edges.groupby("type").rank()["global_edge_index"]
+                    rank_in_type = (rank_in_type.astype(int) - 1).to_numpy()
+                    inds = rank_in_type[np.asarray(inds)]
+                u[key] = u[key].at[inds].set(externals[key])
 
         # Voltage steps.
         cm = params["capacitance"]  # Abbreviation.
